@@ -231,7 +231,7 @@ def sel_psets(sel):
     return out
 
 
-VARIANTS = ['equal', 'b_wider', 'b_narrower', 'disjoint', 'mode', 'b_port', 'b_anyproto']
+VARIANTS = ['equal', 'b_wider', 'b_narrower', 'disjoint', 'mode', 'mode_only', 'b_port', 'b_anyproto']
 
 
 def make_cfg(p):
@@ -266,6 +266,9 @@ def apply_variant(s, cfg, variant):
             pb.pop('peer_subnet', None)
         else:
             pb['my_subnet'], pb['peer_subnet'] = cfg['addr_b'] + '/32', cfg['addr_a'] + '/32'
+    elif variant == 'mode_only':
+        # the same selectors at both ends, only the mode differs: the refusal is then due to the mode and nothing else
+        pb['mode'] = 'transport' if pb['mode'] == 'tunnel' else 'tunnel'
     elif variant == 'b_port':
         pb['my_port'] = 0
     elif variant == 'b_anyproto':
@@ -366,7 +369,7 @@ def e2e_case(case):
                 s.fail('sa-mode-differs-from-policy', f'kernel {name} SA {key} has mode {r["mode"]}, the policy says {pol[name][2]}')
     # refusals
     variant = case.get('variant', 'equal')
-    expect_refusal = variant in ('disjoint', 'mode')
+    expect_refusal = variant in ('disjoint', 'mode', 'mode_only')
     if expect_refusal and not tam:
         if s.a.kernel.sad or s.b.kernel.sad:
             s.fail(f'installed-despite-{variant}', f'the policies are {variant}-incompatible but SAs were installed')
